@@ -196,7 +196,7 @@ pub fn scenario(r: &mut Report, p: &Params) {
         let kind = if li < 3 { Kind::PutImmutable } else { *rng.pick(&[Kind::FindNode, Kind::FindNode, Kind::GetClosest, Kind::GetClosest, Kind::GetClosest, Kind::GetPeers, Kind::PutImmutable]) };
         // target: random, or clustered near an existing id (long common prefix)
         let mut target: [u8; 20] = rng.array();
-        let value = rng.blob(4, 30);
+        let value = if rng.chance(1, 3) { rng.blob(900, 1000) } else { rng.blob(4, 30) }; // a third of the stored values are close to the 1000-byte limit: answers of 1.5 - 1.7 kB with 20 nodes listed
         if kind == Kind::PutImmutable {
             target = crate::sha1::immutable_target(&value);
             stored_targets.push(target);
@@ -285,7 +285,7 @@ pub fn scripted(r: &mut Report, seed: u64) {
     let w = World::with_cfg(seed, NetCfg::default(), TraceLevel::Off);
     let n = 6 + rng.usize(55);
     let plan = rng.usize(4);
-    let value = rng.blob(4, 30);
+    let value = if rng.chance(1, 3) { rng.blob(900, 1000) } else { rng.blob(4, 30) };
     let center = crate::sha1::immutable_target(&value);
     let mut ends: Vec<N> = vec![];
     for i in 0..n {
